@@ -85,18 +85,31 @@ func (m *DomainMatcher) Add(labels [][]byte) {
 // labelNode can store dns labels.
 type labelNode struct {
 	// lazy init
-	s map[[24]byte]*labelNode
+	s map[shortLabel]*labelNode
 	l map[string]*labelNode
+}
+
+// shortLabel is the map key for labels of up to 24 bytes. The length is
+// part of the key: the array is zero padded, and without it "a" and "a\x00"
+// would be the same key.
+type shortLabel struct {
+	n uint8
+	b [24]byte
+}
+
+func newShortLabel(label []byte) (k shortLabel) {
+	k.n = uint8(len(label))
+	copy(k.b[:], label)
+	return k
 }
 
 func (n *labelNode) AddLeaf(label []byte) {
 	l := len(label)
 	if l <= 24 {
 		if n.s == nil {
-			n.s = make(map[[24]byte]*labelNode)
+			n.s = make(map[shortLabel]*labelNode)
 		}
-		var key [24]byte
-		copy(key[:], label)
+		key := newShortLabel(label)
 		n.s[key] = nil
 	} else {
 		if n.l == nil {
@@ -110,13 +123,12 @@ func (n *labelNode) AddLeaf(label []byte) {
 func (n *labelNode) GetOrAddChild(label []byte) *labelNode {
 	l := len(label)
 	if l <= 24 {
-		var key [24]byte
-		copy(key[:], label)
+		key := newShortLabel(label)
 		if child, ok := n.s[key]; ok {
 			return child // nil if label is a leaf
 		}
 		if n.s == nil {
-			n.s = make(map[[24]byte]*labelNode)
+			n.s = make(map[shortLabel]*labelNode)
 		}
 		child := new(labelNode)
 		n.s[key] = child
@@ -137,9 +149,7 @@ func (n *labelNode) GetOrAddChild(label []byte) *labelNode {
 func (n *labelNode) GetChild(label []byte) (child *labelNode, ok bool) {
 	l := len(label)
 	if l <= 24 {
-		var key [24]byte
-		copy(key[:], label)
-		child, ok = n.s[key]
+		child, ok = n.s[newShortLabel(label)]
 		return
 	}
 	child, ok = n.l[string(label)]
